@@ -15,6 +15,7 @@ from sa import q
 from sa.astutil import u, try_const
 from sa.minieval import MiniEval, Raised, Rec, Sym, Unknown, run_function
 from sa.model import AnalysisError, ClassInfo
+from sa.objworld import ObjWorld
 from spec import arc4
 
 ABI_MODULES = ["pyteal.ast.abi.type", "pyteal.ast.abi.bool", "pyteal.ast.abi.uint", "pyteal.ast.abi.tuple", "pyteal.ast.abi.array_base", "pyteal.ast.abi.array_static", "pyteal.ast.abi.array_dynamic", "pyteal.ast.abi.address", "pyteal.ast.abi.string", "pyteal.ast.abi.util", "pyteal.ast.abi.transaction", "pyteal.ast.abi.reference_type"]
@@ -24,76 +25,10 @@ def strip(x) -> str:
     return re.sub(r"#\d+", "", repr(x))
 
 
-class AbiWorld:
+class AbiWorld(ObjWorld):
     def __init__(self, ctx, modules=None, real_classes=()):
         self.ctx = ctx
-        self.model = ctx.model
-        self.me: Optional[MiniEval] = None
-        self.class_syms: Dict[str, Sym] = {}
-        self.helpers: Dict[str, Any] = {}
-        self.consts: Dict[str, Any] = {}
-        for mn in (ABI_MODULES if modules is None else modules):
-            m = self.model.modules.get(mn)
-            if m is None:
-                continue
-            for f in m.all_funcs:
-                if f.cls is None and "<locals>" not in f.qualname:
-                    self.helpers.setdefault(f.name, f.node)
-            for k, v in m.assigns.items():
-                ok, c = try_const(self.model, m, v)
-                if ok and isinstance(c, (int, str, tuple, list, frozenset, set, bytes)):
-                    self.consts.setdefault(k, c)
-        self.instances: Dict[str, Sym] = {}
-        self.real_classes: set = set(real_classes)
-        self.me = MiniEval(self.oracle(), "abi-world", permissive=True, resolver=self.resolver)
-        self.setup(self.me)
-
-    # ------------------------------------------------------------------ real type specs
-    def class_sym(self, cname: str) -> Sym:
-        if cname in self.class_syms:
-            return self.class_syms[cname]
-        c = self.model.find_class(cname)
-        s = Sym("class:" + cname, attrs={"classname": cname, "$class": c})
-        s.methods["__call__"] = lambda *a, **k: self.construct(cname, list(a), k)
-        self.class_syms[cname] = s
-        for k in reversed(self.model.mro(c)):
-            for an, av in k.class_attrs.items():
-                ok, cv = try_const(self.model, k.module, av)
-                if ok and isinstance(cv, (int, str, bool, type(None))):
-                    s.attrs[an] = cv
-            for nm, fi in k.methods.items():
-                decs = fi.decorators()
-                if "classmethod" in decs:
-                    s.methods[nm] = (lambda fi: lambda *a, **kw: self.me.call_def(fi.node, [s] + list(a), dict(kw), {"$cls": fi.cls}))(fi)
-                elif "staticmethod" in decs:
-                    s.methods[nm] = (lambda fi: lambda *a, **kw: self.me.call_def(fi.node, list(a), dict(kw), {"$cls": fi.cls}))(fi)
-        return s
-
-    def construct(self, cname: str, args: list, kwargs: dict) -> Sym:
-        c = self.model.find_class(cname)
-        key = None
-        if not args and not kwargs:
-            key = cname
-            if key in self.instances:
-                return self.instances[key]
-        inst = Sym(f"<{cname}>", attrs={"$isa": {k.name for k in self.model.mro(c)}, "$type": self.class_sym(cname), "$class": c})
-        self.bind_methods(inst, c)
-        init = self.model.resolve_method(c, "__init__")
-        if init is not None:
-            self.call_method(inst, init, args, kwargs)
-        if key:
-            self.instances[key] = inst
-        return inst
-
-    def bind_methods(self, inst: Sym, c: ClassInfo):
-        for k in reversed(self.model.mro(c)):
-            for nm, fi in k.methods.items():
-                if nm == "__init__":
-                    continue
-                inst.methods[nm] = (lambda fi: lambda *a, **kw: self.call_method(inst, fi, list(a), kw))(fi)
-
-    def call_method(self, inst: Sym, fi, args: list, kwargs: dict):
-        return self.me.call_def(fi.node, [inst] + list(args), dict(kwargs), {"$cls": fi.cls, "$self": inst})
+        super().__init__(ctx.model, ABI_MODULES if modules is None else modules, real_classes, where="abi-world")
 
     def spec(self, s) -> Sym:
         """the repository's TypeSpec object for an ARC-4 shape"""
@@ -110,68 +45,6 @@ class AbiWorld:
         if k == "tuple":
             return self.construct(cname, [self.spec(m) for m in s[1]], {})
         raise AnalysisError(f"shape {s} not constructible")
-
-    # ------------------------------------------------------------------ oracle
-    def oracle(self, extra=None):
-        def o(e, me):
-            t = u(e)
-            if isinstance(e, ast.Call) and t == "super()":
-                cls = me.env.get("$cls")
-                selfs = me.env.get("$self")
-                if cls is None or selfs is None:
-                    raise Unknown()
-                mro = self.model.mro(selfs.attrs["$class"])
-                idx = [i for i, k in enumerate(mro) if k is cls]
-                rest = mro[idx[0] + 1:] if idx else mro[1:]
-                sup = Sym("super")
-                for k in reversed(rest):
-                    for nm, fi in k.methods.items():
-                        sup.methods[nm] = (lambda fi: lambda *a, **kw: self.call_method(selfs, fi, list(a), kw))(fi)
-                sup.methods.setdefault("__init__", lambda *a, **k: None)
-                return sup
-            if extra is not None:
-                try:
-                    return extra(e, me)
-                except Unknown:
-                    pass
-            if isinstance(e, ast.Name):
-                if e.id in self.consts:
-                    return self.consts[e.id]
-                if (e.id.endswith("TypeSpec") or e.id in self.real_classes) and self.model.try_class(e.id) is not None:
-                    return self.class_sym(e.id)
-                c = self.model.try_class(e.id)
-                if c is not None and any(b.split(".")[-1] in ("Enum", "IntEnum", "Flag", "IntFlag") for b in c.base_exprs):
-                    if e.id not in self.class_syms:
-                        es = Sym(e.id)
-                        for k, v in c.class_attrs.items():
-                            ok, cv = try_const(self.model, c.module, v)
-                            if ok:
-                                es.attrs[k] = cv if "Int" in "".join(c.base_exprs) else Sym(f"{e.id}.{k}", attrs={"value": cv, "name": k})
-                        self.class_syms[e.id] = es
-                    return self.class_syms[e.id]
-            raise Unknown()
-
-        return o
-
-    def setup(self, me):
-        self.me = me
-        me.expr_compare = True
-
-        def isa(v, cname):
-            cname = cname.split(".")[-1]
-            if isinstance(v, Sym) and "$isa" in v.attrs:
-                return cname in v.attrs["$isa"]
-            if isinstance(v, Rec):
-                return cname == "Expr"
-            return None
-
-        me.isinstance_hook = isa
-
-    def resolver(self, nm):
-        return self.helpers.get(nm)
-
-    def run(self, fnode, args, extra=None, where=""):
-        return run_function(fnode, args, self.oracle(extra), where, permissive=True, resolver=self.resolver, setup=self.setup)
 
 
 def intval(t):
